@@ -12,10 +12,11 @@ class OutOfSubset(Exception):
 
 class SV:
     """A Python value of SMT sort V, with its concrete Python value when statically known."""
-    __slots__ = ("t", "conc")
+    __slots__ = ("t", "conc", "shape")
 
-    def __init__(self, t, conc=NOCONC):
-        self.t, self.conc = t, conc
+    def __init__(self, t, conc=NOCONC, shape=None):
+        # shape: a container built by the analysed function: python dict/list whose leaves are SVs
+        self.t, self.conc, self.shape = t, conc, shape
 
     def __repr__(self):
         return "SV(%s)" % (self.t if self.conc is NOCONC else repr(self.conc))
@@ -323,13 +324,17 @@ class Alt(Seq):
 
 class For(Seq):
     """flat-map: concat_{i in [0,n)} body(i).  `unordered`: iteration order unspecified (set)."""
-    __slots__ = ("ivar", "n", "body", "unordered")
+    __slots__ = ("ivar", "n", "body", "unordered", "lo")
 
-    def __init__(self, ivar, n, body, unordered=False):
+    def __init__(self, ivar, n, body, unordered=False, lo=None):
         self.ivar, self.n, self.body, self.unordered = ivar, n, body, unordered
+        self.lo = lo if lo is not None else z3.IntVal(0)
+
+    def rng(self):
+        return z3.And(self.ivar >= self.lo, self.ivar < self.n)
 
     def __repr__(self):
-        return "For(%s<%s: %r)" % (self.ivar, self.n, self.body)
+        return "For(%s<=%s<%s: %r)" % (self.lo, self.ivar, self.n, self.body)
 
 
 class ForErr(Seq):
@@ -386,7 +391,7 @@ def seq_empty(s):
         body = seq_empty(s.body)
         if z3.is_true(body):
             return body
-        return z3.ForAll([s.ivar], z3.Implies(z3.And(s.ivar >= 0, s.ivar < s.n), body))
+        return z3.ForAll([s.ivar], z3.Implies(s.rng(), body))
     if isinstance(s, ForErr):
         if seq_never_empty(s.body):
             return seq_empty(s.src)
@@ -413,7 +418,7 @@ def subst(x, pairs):
     if isinstance(x, z3.ExprRef):
         return z3.substitute(x, *pairs)
     if isinstance(x, SV):
-        return SV(z3.substitute(x.t, *pairs), x.conc)
+        return SV(z3.substitute(x.t, *pairs), x.conc, subst(x.shape, pairs) if x.shape is not None else None)
     if isinstance(x, SB):
         return SB(z3.substitute(x.f, *pairs))
     if isinstance(x, SInt):
@@ -444,7 +449,7 @@ def subst(x, pairs):
     if isinstance(x, Alt):
         return Alt([(subst(c, pairs), subst(b, pairs)) for c, b in x.cases])
     if isinstance(x, For):
-        return For(x.ivar, subst(x.n, pairs), subst(x.body, pairs), x.unordered)
+        return For(x.ivar, subst(x.n, pairs), subst(x.body, pairs), x.unordered, subst(x.lo, pairs))
     if isinstance(x, ForErr):
         return ForErr(subst(x.src, pairs), subst(x.body, pairs))
     if isinstance(x, Gen):
